@@ -639,7 +639,7 @@ func rulePatternFilter(c *Ctx) {
 	}
 	var operands []operand
 	scen := func(P, M, E byte) Scenario {
-		return func(si *types.Info, body ast.Node) func(e ast.Expr) byte {
+		return atomsOnly(func(si *types.Info, body ast.Node) func(e ast.Expr) byte {
 			return func(e ast.Expr) byte {
 				e = ast.Unparen(e)
 				switch x := e.(type) {
@@ -668,7 +668,7 @@ func rulePatternFilter(c *Ctx) {
 				}
 				return '?'
 			}
-		}
+		})
 	}
 	reach := func(P, M, E byte) (bool, []ast.Node) {
 		return c.scenReach(fg, lit.Body, scen(P, M, E), Loc{}, isAppend, nil)
